@@ -35,6 +35,8 @@ pub enum Adv {
     Days(u8),
     /// into the next deadline of miner m that holds live sectors, `into` epochs after it opens
     NextSectorDeadline { m: u8, into: u8 },
+    /// to the expiration epoch of miner m's beneficiary term + rel (if that lies ahead, at most 3 days)
+    BeneficiaryExpiry { m: u8, rel: i8 },
 }
 
 #[derive(Clone, Debug, Serialize, Deserialize)]
@@ -44,6 +46,8 @@ pub enum Who {
     Stranger,
     Reporter,
     OtherOwner,
+    /// the miner's current beneficiary
+    Beneficiary,
 }
 
 #[derive(Clone, Debug, Serialize, Deserialize)]
@@ -74,7 +78,7 @@ pub enum Op {
     /// macro: onboard enough sectors at once (94 + n) that the assignment has to put several partitions into one deadline
     Bulk { m: u8, n: u8, life_days: u16 },
     /// macro: a long stretch of chain time (days), with (post) or without a Window PoSt for every deadline of miner m that holds sectors
-    Long { m: u8, days: u8, post: bool },
+    Long { m: u8, days: u16, post: bool },
     /// the wrapped operation with a failure injected into one of its nested sends
     WithFault { ordinal: u16, syscall: bool, op: Box<Op> },
     /// macro: dispute a PoSt the harness saw accepted (chosen by `pick`), after its deadline closed (rel: epochs after the close, -1 = before)
@@ -94,6 +98,18 @@ pub enum Op {
     ExtendClaim { pick: u16, add_days: u16, by_client: bool },
     /// anyone asks the registry to remove expired claims / allocations
     RemoveExpired { m: u8, claims: bool },
+    /// macro: the owner nominates the reporter account as beneficiary (quota in milli-FIL, expiry exp_rel epochs ahead) and the nominee approves;
+    /// back = hand the role back to the owner instead
+    SetBeneficiary { m: u8, quota_milli: u32, exp_rel: u16, back: bool },
+    /// macro: move to the beneficiary term's expiration + rel, then withdraw
+    WithdrawAtExpiry { m: u8, rel: i8, by: Who, pm: u16 },
+    /// macro: SetBeneficiary then WithdrawAtExpiry
+    BeneficiaryCycle { m: u8, quota_milli: u32, exp_rel: u16, rel: i8, by: Who, pm: u16 },
+    /// extend sectors of several partitions of ONE deadline in one message (prefers a deadline holding >= 2 partitions);
+    /// common = all declarations name the same new expiration
+    ExtendMany { m: u8, pick: u16, per_partition: u8, add_days: u16, common: bool },
+    /// macro: run the chain (with or without a PoSt for every deadline of miner m) to the earliest on-time expiration of its live sectors + rel deadlines
+    ToExpiry { m: u8, post: bool, rel: i8 },
 }
 
 #[derive(Clone, Debug, Serialize, Deserialize)]
@@ -107,6 +123,12 @@ pub struct SysCase {
     /// the reward actor starts with only a few FIL (reaches the 'reward never pays out more than it holds' branch)
     #[serde(default)]
     pub poor_reward: bool,
+    /// genesis gives the idle cushion miner a 10 EiB claim, so that rewards, pledges and fees per sector have realistic proportions
+    #[serde(default)]
+    pub whale: bool,
+    /// initial funding of each miner beyond its creation deposit: 0 = 5000 FIL, 1 = 40 FIL, 2 = just above the deposit
+    #[serde(default)]
+    pub funding: Vec<u8>,
     pub ops: Vec<Op>,
 }
 
@@ -184,7 +206,15 @@ impl<'a> Sys<'a> {
             let owner = s.w.account(610 + i as u16, &TokenAmount::from_whole(200_000));
             let worker = s.w.account(620 + i as u16, &TokenAmount::from_whole(1_000));
             let (seal, post) = proof_of(case.proofs.get(i).copied().unwrap_or(0));
-            let (id, _) = s.w.create_miner(owner, worker, post, &TokenAmount::from_whole(5_000)).map_err(|r| Violation::new("create-miner-failed", r.message.clone()))?;
+            let funds = match case.funding.get(i).copied().unwrap_or(0) % 3 {
+                0 => TokenAmount::from_whole(5_000),
+                1 => TokenAmount::from_whole(40),
+                _ => TokenAmount::from_whole(33),
+            };
+            if case.funding.get(i).copied().unwrap_or(0) % 3 != 0 {
+                s.stats.label("poorly_funded_miner");
+            }
+            let (id, _) = s.w.create_miner(owner, worker, post, &funds).map_err(|r| Violation::new("create-miner-failed", r.message.clone()))?;
             let mv = read_miner(&s.w.v, id);
             s.miners.push(MinerH { id, owner, worker, seal, post, next_sector: 0, creation_deposit: mv.locked.clone(), created_at: 5 });
         }
@@ -195,7 +225,33 @@ impl<'a> Sys<'a> {
     }
 
     /// create the cushion miner and lock a large reward in it
-    pub fn cushion(&mut self) -> VResult {
+    /// genesis fixture: give `id` a claim of 10 EiB that no sector backs (only ever applied to the idle cushion miner)
+    fn grant_phantom_power(&mut self, id: ActorID) {
+        use fil_actor_power as pw;
+        let v = &self.w.v;
+        let mut st: pw::State = v.get_state(fil_actors_runtime::STORAGE_POWER_ACTOR_ID).expect("power state");
+        let wp = BigInt::from(10u64) << 60u32;
+        let mut claims = st.load_claims(&*v.store).expect("claims");
+        let old = claims.get(&Address::new_id(id)).expect("get claim").expect("cushion claim").clone();
+        pw::set_claim(&mut claims, &Address::new_id(id), pw::Claim { raw_byte_power: &old.raw_byte_power + &wp, quality_adj_power: &old.quality_adj_power + &wp, ..old }).expect("set claim");
+        st.save_claims(&mut claims).expect("save claims");
+        st.total_raw_byte_power += &wp;
+        st.total_bytes_committed += &wp;
+        st.total_quality_adj_power += &wp;
+        st.total_qa_bytes_committed += &wp;
+        st.this_epoch_raw_byte_power += &wp;
+        st.this_epoch_quality_adj_power += &wp;
+        st.this_epoch_qa_power_smoothed = fil_actors_runtime::reward::FilterEstimate::new(st.this_epoch_quality_adj_power.clone(), BigInt::zero());
+        st.miner_above_min_power_count += 1;
+        let head = v.put(&st);
+        let mut a = v.actor(fil_actors_runtime::STORAGE_POWER_ACTOR_ID).unwrap();
+        a.state = head;
+        v.set_actor(fil_actors_runtime::STORAGE_POWER_ACTOR_ID, a);
+        self.checks.phantom.insert(id, Pow { raw: wp.clone(), qa: wp });
+        self.stats.label("whale_network");
+    }
+
+    pub fn cushion(&mut self, whale: bool) -> VResult {
         let owner = self.w.account(690, &TokenAmount::from_whole(50_000));
         let (id, _) = self.w.create_miner(owner, owner, RegisteredPoStProof::StackedDRGWindow32GiBV1P1, &TokenAmount::from_whole(5_000)).map_err(|r| Violation::new("create-miner-failed", r.message.clone()))?;
         let mv = read_miner(&self.w.v, id);
@@ -210,7 +266,12 @@ impl<'a> Sys<'a> {
         // the cushion miner is not an operation target
         let c = self.miners.pop().unwrap();
         self.cushion_miner = Some(c);
-        self.after_message(Some(&r))
+        self.after_message(Some(&r))?;
+        if whale {
+            self.grant_phantom_power(id);
+            self.after_message(None)?;
+        }
+        Ok(())
     }
 
     fn setup_verified(&mut self) -> VResult {
@@ -265,6 +326,7 @@ impl<'a> Sys<'a> {
             Who::Stranger => self.stranger,
             Who::Reporter => self.reporter,
             Who::OtherOwner => self.miners[(m + 1) % self.miners.len()].owner,
+            Who::Beneficiary => read_miner(&self.w.v, self.miners[m].id).beneficiary,
         }
     }
 
@@ -455,6 +517,28 @@ impl<'a> Sys<'a> {
                     self.stats.label("bulk_onboarded");
                 }
             }
+            Op::ToExpiry { m, post, rel } => {
+                let mv = read_miner(&self.w.v, self.miners[*m as usize % n].id);
+                let mut first: Option<i64> = None;
+                for d in &mv.deadlines {
+                    for p in &d.partitions {
+                        for (e, set) in &p.expirations {
+                            if !set.on_time.is_empty() {
+                                first = Some(first.map_or(*e, |f: i64| f.min(*e)));
+                            }
+                        }
+                    }
+                }
+                if let Some(e) = first {
+                    let target = e + (*rel as i64) * DEADLINE_EPOCHS;
+                    if target > epoch && target - epoch < 640 * PERIOD {
+                        self.stats.label("ran_to_on_time_expiration");
+                        let days = ((target - epoch) / PERIOD) as u16;
+                        self.step(i, &Op::Long { m: *m, days, post: *post })?;
+                        self.advance_to(target)?;
+                    }
+                }
+            }
             Op::Long { m, days, post } => {
                 let target = epoch + (*days as i64) * PERIOD;
                 self.stats.label(if *days >= 178 { "long_180_days" } else if *days >= 42 { "long_42_days" } else { "long_days" });
@@ -511,6 +595,11 @@ impl<'a> Sys<'a> {
                             }
                         }
                         t
+                    }
+                    Adv::BeneficiaryExpiry { m, rel } => {
+                        let mv = read_miner(&self.w.v, self.miners[*m as usize % n].id);
+                        let t = mv.beneficiary_term.2 + *rel as i64;
+                        if mv.beneficiary != mv.owner && t > epoch && t - epoch < 3 * PERIOD { t } else { epoch }
                     }
                     Adv::ProveWindow { m, rel } => {
                         let mv = read_miner(&self.w.v, self.miners[*m as usize % n].id);
@@ -952,7 +1041,8 @@ impl<'a> Sys<'a> {
                 let cid_ = ids[pick(*pk, ids.len())];
                 let cl = &reg.claims[&cid_];
                 let from = if *by_client { self.vclient } else { self.stranger };
-                let term_max = cl.term_max + (*add_days as i64 % 800) * PERIOD - if *add_days % 16 == 0 { PERIOD } else { 0 };
+                // (one in eight requests tries to shorten the term)
+                let term_max = if *add_days % 8 == 0 { cl.term_max - (1 + *add_days as i64 % 90) * PERIOD } else { cl.term_max + (*add_days as i64 % 800) * PERIOD };
                 let r = self.send(from, fil_actors_runtime::VERIFIED_REGISTRY_ACTOR_ID, vr::Method::ExtendClaimTerms as u64, &zero, &vr::ExtendClaimTermsParams { terms: vec![vr::ClaimTerm { provider: cl.provider, claim_id: cid_, term_max }] })?;
                 self.stats.say(|| format!("op {i}: ExtendClaimTerms claim {cid_} term_max {} -> {term_max} by {from} -> {} {}", cl.term_max, r.code.value(), r.message));
             }
@@ -967,6 +1057,89 @@ impl<'a> Sys<'a> {
                     self.send(from, fil_actors_runtime::VERIFIED_REGISTRY_ACTOR_ID, vr::Method::RemoveExpiredAllocations as u64, &zero, &vr::RemoveExpiredAllocationsParams { client: c, allocation_ids: vec![] })?
                 };
                 self.stats.say(|| format!("op {i}: RemoveExpired claims={claims} -> {} {}", r.code.value(), r.message));
+            }
+            Op::ExtendMany { m, pick: pk, per_partition, add_days, common } => {
+                let mi_ = *m as usize % n;
+                let (id, worker) = (self.miners[mi_].id, self.miners[mi_].worker);
+                let mv = read_miner(&self.w.v, id);
+                let healthy = |p: &PartView| -> Vec<u64> { p.sectors.iter().copied().filter(|s| !p.terminated.contains(s) && !p.faults.contains(s)).collect() };
+                let multi: Vec<usize> = mv.deadlines.iter().enumerate().filter(|(_, d)| d.partitions.iter().filter(|p| !healthy(p).is_empty()).count() >= 2).map(|(i, _)| i).collect();
+                let any: Vec<usize> = mv.deadlines.iter().enumerate().filter(|(_, d)| d.partitions.iter().any(|p| !healthy(p).is_empty())).map(|(i, _)| i).collect();
+                let cands = if !multi.is_empty() { multi } else { any };
+                if cands.is_empty() {
+                    return Ok(());
+                }
+                let dl = cands[pick(*pk, cands.len())];
+                let mut decls: Vec<(u64, Vec<u64>)> = vec![];
+                let mut max_exp = epoch;
+                for (pi, p) in mv.deadlines[dl].partitions.iter().enumerate().take(4) {
+                    let h = healthy(p);
+                    let take: Vec<u64> = h.into_iter().take(1 + (*per_partition as usize % 3)).collect();
+                    if take.is_empty() {
+                        continue;
+                    }
+                    for s in &take {
+                        if let Some(i) = mv.sectors.get(s) {
+                            max_exp = max_exp.max(i.expiration);
+                        }
+                    }
+                    decls.push((pi as u64, take));
+                }
+                let exts: Vec<mi::ExpirationExtension2> = decls
+                    .iter()
+                    .map(|(pi, v)| {
+                        let mut b = BitField::new();
+                        for s in v {
+                            b.set(*s);
+                        }
+                        let own = v.iter().filter_map(|s| mv.sectors.get(s)).map(|s| s.expiration).max().unwrap_or(epoch);
+                        let base = if *common { max_exp } else { own };
+                        mi::ExpirationExtension2 { deadline: dl as u64, partition: *pi, sectors: b, sectors_with_claims: vec![], new_expiration: base + (*add_days as i64 % 300) * PERIOD }
+                    })
+                    .collect();
+                let np = exts.len();
+                let r = self.send(worker, id, mi::Method::ExtendSectorExpiration2 as u64, &zero, &mi::ExtendSectorExpiration2Params { extensions: exts })?;
+                self.stats.say(|| format!("op {i}: ExtendMany miner {id} deadline {dl} {decls:?} common={common} +{add_days}d -> {} {}", r.code.value(), r.message));
+                if r.ok() {
+                    self.stats.label("extended");
+                    if np >= 2 {
+                        self.stats.label("extended_several_partitions_at_once");
+                    }
+                }
+            }
+            Op::BeneficiaryCycle { m, quota_milli, exp_rel, rel, by, pm } => {
+                self.step(i, &Op::SetBeneficiary { m: *m, quota_milli: *quota_milli, exp_rel: *exp_rel, back: false })?;
+                self.step(i, &Op::WithdrawAtExpiry { m: *m, rel: *rel, by: by.clone(), pm: *pm })?;
+            }
+            Op::WithdrawAtExpiry { m, rel, by, pm } => {
+                self.step(i, &Op::Advance(Adv::BeneficiaryExpiry { m: *m, rel: *rel }))?;
+                self.step(i, &Op::Withdraw { m: *m, by: by.clone(), pm: *pm })?;
+            }
+            Op::SetBeneficiary { m, quota_milli, exp_rel, back } => {
+                let mi_ = *m as usize % n;
+                let (id, owner) = (self.miners[mi_].id, self.miners[mi_].owner);
+                let mv = read_miner(&self.w.v, id);
+                let p = if *back {
+                    mi::ChangeBeneficiaryParams { new_beneficiary: Address::new_id(owner), new_quota: TokenAmount::zero(), new_expiration: 0 }
+                } else {
+                    mi::ChangeBeneficiaryParams { new_beneficiary: Address::new_id(self.reporter), new_quota: TokenAmount::from_atto(BigInt::from(*quota_milli) * BigInt::from(10u64.pow(15))), new_expiration: epoch + *exp_rel as i64 }
+                };
+                let mut callers = vec![owner];
+                if !*back {
+                    callers.push(self.reporter);
+                }
+                if mv.beneficiary != owner {
+                    callers.push(mv.beneficiary);
+                }
+                callers.dedup();
+                for c in callers {
+                    let r = self.send(c, id, mi::Method::ChangeBeneficiary as u64, &zero, &p)?;
+                    self.stats.say(|| format!("op {i}: ChangeBeneficiary miner {id} by {c} -> {:?} quota {} expiry {} -> {} {}", p.new_beneficiary, p.new_quota, p.new_expiration, r.code.value(), r.message));
+                }
+                let after = read_miner(&self.w.v, id);
+                if after.beneficiary != after.owner {
+                    self.stats.label("beneficiary_set");
+                }
             }
             Op::WithFault { ordinal, syscall, op } => {
                 self.pending_fault = Some((*ordinal, *syscall));
@@ -1039,6 +1212,7 @@ pub fn adv_strategy() -> impl Strategy<Value = Adv> {
         4 => (0u8..4, -1i8..3).prop_map(|(m, rel)| Adv::ProveWindow { m, rel }),
         1 => (0u8..4).prop_map(Adv::Days),
         8 => (0u8..4, prop_oneof![3 => 0u8..5, 1 => 0u8..60]).prop_map(|(m, into)| Adv::NextSectorDeadline { m, into }),
+        2 => (0u8..4, -2i8..3).prop_map(|(m, rel)| Adv::BeneficiaryExpiry { m, rel }),
     ]
 }
 
@@ -1046,12 +1220,14 @@ pub fn who_strategy() -> impl Strategy<Value = Who> {
     prop_oneof![10 => Just(Who::Worker), 3 => Just(Who::Owner), 1 => Just(Who::Stranger), 1 => Just(Who::OtherOwner)]
 }
 
-pub fn op_strategy_w(bulk: u32, long: u32, dispute: u32, verified: u32) -> impl Strategy<Value = Op> {
+pub fn op_strategy_w(bulk: u32, long: u32, dispute: u32, verified: u32, benef: u32) -> impl Strategy<Value = Op> {
     // moving a sector into the last 30 days of its life costs >= 150 days of ticks
-    let eol = if long >= 6 { 6 } else { 1 };
+    let eol = if long >= 6 { 6 } else if verified >= 20 { 3 } else { 1 };
     prop_oneof![
         2000 => op_strategy(),
-        bulk * 10 => (0u8..4, 0u8..40, 0u16..400).prop_map(|(m, n, life_days)| Op::Bulk { m, n, life_days }),
+        bulk * 5 => (0u8..4, any::<u16>(), 0u8..3, 0u16..300, any::<bool>()).prop_map(|(m, pick, per_partition, add_days, common)| Op::ExtendMany { m, pick, per_partition, add_days, common }),
+        bulk * 10 => (0u8..4, 0u8..40, prop_oneof![1 => Just(0u16), 2 => 0u16..400]).prop_map(|(m, n, life_days)| Op::Bulk { m, n, life_days }),
+        benef => (0u8..4, prop_oneof![1 => 1u32..20_000, 2 => 1_000_000u32..4_000_000], 3u16..600, -2i8..3, prop_oneof![Just(Who::Owner), Just(Who::Beneficiary)], 1u16..1000).prop_map(|(m, quota_milli, exp_rel, rel, by, pm)| Op::BeneficiaryCycle { m, quota_milli, exp_rel, rel, by, pm }),
         dispute * 2 => (0u8..4, 0u8..5, -1i16..40).prop_map(|(m, into, rel)| Op::BadPostDispute { m, into, rel }),
         dispute => (any::<u16>(), prop_oneof![4 => -1i16..3, 2 => 0i16..1800, 1 => 1795i16..1805], prop_oneof![4 => Just(0u8), 1 => Just(1u8)]).prop_map(|(pick, rel, index)| Op::DisputeRecent { pick, rel, index }),
         30 => (any::<u16>(), any::<bool>(), faultable_op()).prop_map(|(ordinal, syscall, op)| Op::WithFault { ordinal, syscall, op: Box::new(op) }),
@@ -1061,7 +1237,8 @@ pub fn op_strategy_w(bulk: u32, long: u32, dispute: u32, verified: u32) -> impl 
         verified * 4 => (0u8..4, any::<u16>(), 0u16..300, prop_oneof![3 => Just(0u8), 1 => 1u8..5], prop_oneof![8 => Just(0u8), 6 => Just(1u8), eol => Just(2u8)], -2i8..3).prop_map(|(m, pick, add_days, mode, target, rel)| Op::ExtendV { m, pick, add_days, mode, target, rel }),
         verified => (any::<u16>(), 0u16..800, prop_oneof![5 => Just(true), 1 => Just(false)]).prop_map(|(pick, add_days, by_client)| Op::ExtendClaim { pick, add_days, by_client }),
         verified => (0u8..4, any::<bool>()).prop_map(|(m, claims)| Op::RemoveExpired { m, claims }),
-        long.max(1) => (0u8..4, if long >= 6 { prop_oneof![4 => 1u8..6, 2 => 41u8..45, 1 => 178u8..186].boxed() } else if long >= 1 { prop_oneof![4 => 1u8..6, 2 => 41u8..45].boxed() } else { (1u8..3).boxed() }, any::<bool>()).prop_map(|(m, days, post)| Op::Long { m, days, post }),
+        (if long >= 6 { long / 2 } else { 1 }) => (0u8..4, prop_oneof![4 => Just(true), 1 => Just(false)], -1i8..3).prop_map(move |(m, post, rel)| if long >= 6 { Op::ToExpiry { m, post, rel } } else { Op::Advance(Adv::Epochs(rel.unsigned_abs() as u16)) }),
+        long.max(1) => (0u8..4, if long >= 6 { prop_oneof![4 => 1u16..6, 2 => 41u16..45, 1 => 178u16..186].boxed() } else if long >= 1 { prop_oneof![6 => 1u16..6, 1 => 41u16..45].boxed() } else { (1u16..3).boxed() }, any::<bool>()).prop_map(|(m, days, post)| Op::Long { m, days, post }),
     ]
 }
 
@@ -1090,23 +1267,25 @@ pub fn op_strategy() -> impl Strategy<Value = Op> {
         2 => (0u8..4, refs(), 1u16..300).prop_map(|(m, sectors, add_days)| Op::Extend { m, sectors, add_days }),
         1 => (0u8..4, 0u8..48).prop_map(|(m, deadline)| Op::Compact { m, deadline }),
         4 => (0u8..4, 0u32..50_000, prop_oneof![3 => Just(0u32), 1 => 0u32..100_000], prop_oneof![1 => Just(0u8), 6 => 1u8..3]).prop_map(|(m, milli, penalty_milli, wins)| Op::Reward { m, milli, penalty_milli, wins }),
-        3 => (0u8..4, prop_oneof![4 => Just(Who::Owner), 1 => Just(Who::Worker), 1 => Just(Who::Stranger)], prop_oneof![3 => 0u16..1000, 1 => Just(1000u16), 1 => 1001u16..2000]).prop_map(|(m, by, pm)| Op::Withdraw { m, by, pm }),
+        3 => (0u8..4, prop_oneof![4 => Just(Who::Owner), 1 => Just(Who::Worker), 1 => Just(Who::Stranger), 3 => Just(Who::Beneficiary)], prop_oneof![3 => 0u16..1000, 1 => Just(1000u16), 1 => 1001u16..2000]).prop_map(|(m, by, pm)| Op::Withdraw { m, by, pm }),
+        1 => (0u8..4, -2i8..3, prop_oneof![Just(Who::Owner), Just(Who::Beneficiary)], 1u16..1000).prop_map(|(m, rel, by, pm)| Op::WithdrawAtExpiry { m, rel, by, pm }),
+        1 => (0u8..4, prop_oneof![1 => Just(0u32), 3 => 1u32..20_000, 2 => 1_000_000u32..4_000_000], prop_oneof![1 => 0u16..3, 4 => 3u16..3000], prop_oneof![5 => Just(false), 1 => Just(true)]).prop_map(|(m, quota_milli, exp_rel, back)| Op::SetBeneficiary { m, quota_milli, exp_rel, back }),
         1 => (0u8..3).prop_map(|m| Op::RepayDebt { m }),
         1 => (0u8..4, 0u8..48, 0u8..2).prop_map(|(m, deadline, index)| Op::Dispute { m, deadline, index }),
         1 => (0u8..4, 0u8..7, 0u16..1200, prop_oneof![Just(Who::Reporter), Just(Who::Stranger)]).prop_map(|(m, kind, age, by)| Op::ConsensusFault { m, kind, age, by }),
         1 => (0u8..4, 0u16..2000).prop_map(|(m, whole)| Op::TopUp { m, whole }),
         14 => adv_strategy().prop_map(Op::Advance),
-        6 => (0u8..4, 0u8..4, 0u16..400).prop_map(|(m, n, life_days)| Op::Onboard { m, n, life_days }),
+        6 => (0u8..4, 0u8..4, prop_oneof![1 => Just(0u16), 2 => 0u16..400]).prop_map(|(m, n, life_days)| Op::Onboard { m, n, life_days }),
         16 => (0u8..4, prop_oneof![3 => 0u8..5, 1 => 0u8..60], prop_oneof![4 => Just(vec![]), 1 => proptest::collection::vec(any::<u16>(), 1..3)], prop_oneof![14 => Just(false), 1 => Just(true)], prop_oneof![6 => Just(false), 1 => Just(true)]).prop_map(|(m, into, skip, bad_proof, partial)| Op::PostNext { m, into, skip, bad_proof, partial }),
         1 => (any::<u16>(), any::<bool>()).prop_map(|(ordinal, syscall)| Op::InjectFault { ordinal, syscall }),
         1 => (any::<u16>(), any::<bool>()).prop_map(|(ordinal, syscall)| Op::TickFault { ordinal, syscall }),
     ]
 }
 
-pub fn case_strategy_w(max_ops: usize, bulk: u32, long: u32, dispute: u32, verified: u32) -> impl Strategy<Value = SysCase> {
-    (1u8..5, proptest::collection::vec(prop_oneof![(if verified >= 20 { 1 } else { 3 }) => Just(0u8), (if verified >= 20 { 4 } else { 1 }) => Just(1u8), 1 => Just(2u8)], 4), prop_oneof![2 => Just(0u8), 2 => Just(1u8), 1 => Just(2u8)], prop_oneof![9 => Just(false), 1 => Just(true)], proptest::collection::vec(op_strategy_w(bulk, long, dispute, verified), 0..max_ops)).prop_map(|(n_miners, proofs, min_power, poor_reward, ops)| SysCase { n_miners, proofs, min_power, poor_reward, ops })
+pub fn case_strategy_w(max_ops: usize, bulk: u32, long: u32, dispute: u32, verified: u32, benef: u32) -> impl Strategy<Value = SysCase> {
+    (1u8..5, proptest::collection::vec(prop_oneof![(if verified >= 20 { 1 } else { 3 }) => Just(0u8), (if verified >= 20 { 4 } else { 1 }) => Just(1u8), 1 => Just(2u8)], 4), prop_oneof![2 => Just(0u8), 2 => Just(1u8), 1 => Just(2u8)], prop_oneof![9 => Just(false), 1 => Just(true)], any::<bool>(), proptest::collection::vec(prop_oneof![6 => Just(0u8), 1 => Just(1u8), 1 => Just(2u8)], 4), proptest::collection::vec(op_strategy_w(bulk, long, dispute, verified, benef), 0..max_ops)).prop_map(|(n_miners, proofs, min_power, poor_reward, whale, funding, ops)| SysCase { n_miners, proofs, min_power, poor_reward, whale, funding, ops })
 }
 
 pub fn case_strategy(max_ops: usize) -> impl Strategy<Value = SysCase> {
-    (1u8..5, proptest::collection::vec(prop_oneof![3 => Just(0u8), 1 => Just(1u8), 1 => Just(2u8)], 4), prop_oneof![2 => Just(0u8), 2 => Just(1u8), 1 => Just(2u8)], proptest::collection::vec(op_strategy(), 0..max_ops)).prop_map(|(n_miners, proofs, min_power, ops)| SysCase { n_miners, proofs, min_power, poor_reward: false, ops })
+    (1u8..5, proptest::collection::vec(prop_oneof![3 => Just(0u8), 1 => Just(1u8), 1 => Just(2u8)], 4), prop_oneof![2 => Just(0u8), 2 => Just(1u8), 1 => Just(2u8)], proptest::collection::vec(op_strategy(), 0..max_ops)).prop_map(|(n_miners, proofs, min_power, ops)| SysCase { n_miners, proofs, min_power, poor_reward: false, whale: false, funding: vec![], ops })
 }
